@@ -181,7 +181,7 @@ def bookkeeping_table(ctx, key, rid, fields):
     if not seeds:
         return None, f, "assignments to the castling-right flags in %s" % f["display"]
     sl = Slicer(f)
-    sl.backward([], seeds)
+    sl.backward_from_blocks(seeds)
     inl = Inliner(prog, only=lambda k: k.startswith(MF.MOVE))
     try:
         lvs = explore(f, var_of, {"bits": dom}, inliner=inl, relevant=set(sl.last_blocks), max_leaves=20000)
